@@ -161,11 +161,9 @@ Definition h_document_symbol (f : file) (result : option (list dsym)) : res (opt
   li <- line_index f ;;                                     (* from_proto::file *)
   match result with None => Ok None | Some l => r <- mapM (document_symbol li) l ;; Ok (Some r) end.
 
-(** to_proto::folding_range: start_line / end_line only *)
-Definition folding_range (li : LineIndex) (r : rng) : res (N * N) :=
-  a <- pos_to_line li (fst r) ;; a32 <- to_u32 PLineRange a ;;
-  b <- pos_to_line li (snd r) ;; b32 <- to_u32 PLineRange b ;;
-  Ok (a32, b32).
+(** to_proto::folding_range: start_line / end_line only (the model of the lines group, rendered from the source by
+    t_lineindex.py) *)
+Definition folding_range (li : LineIndex) (r : rng) : res (N * N) := to_proto_folding_range li r.
 
 Definition h_folding_range (f : file) (result : option (list rng)) : res (option (list (N * N))) :=
   li <- line_index f ;;
